@@ -246,7 +246,18 @@ def r4(rr, repo):
         for e in p.events:
             if e.kind == 'store' and e.term == 'self.read_idx':
                 n += 1
-                rr.ob('the reader index advances by exactly one', e.args[0] == 'self.read_idx + 1', mod, e.node, witness=e.args[0], key=f'advance|{e.args[0][:40]}')
+                before = p.events[:p.events.index(e)]
+                reads_ = [i for i, x in enumerate(before) if x.kind == 'call' and (x.term.endswith('.read') or x.term.endswith('.readline'))]
+                refreshed = [x for x in before[(reads_[-1] if reads_ else 0):] if x.kind == 'call' and x.term == 'self.refresh_logfiles']   # a refresh between finding the file exhausted and moving on
+                vanished_ = any(k.startswith('raised-in-try@') for k, v in p.pc[:e.pc_len])
+                if refreshed and not vanished_:
+                    # the refresh either kept the reader on its (exhausted) file - go one past it - or, the file being gone, already moved it to the first newer
+                    # file - continue THERE: the step after a refresh has to depend on which of the two happened
+                    ok = 'self.read_file' in e.args[0] or any('self.read_file' in k for k, v in p.pc[refreshed[-1].pc_len:e.pc_len])
+                    rr.ob('after a refresh the reader goes one past its file only if the refresh kept that file; if the refresh moved it (file deleted) it continues with the file it was moved to',
+                          ok, mod, e.node, witness=e.args[0], key='advance-after-refresh')
+                else:
+                    rr.ob('the reader index advances by exactly one', e.args[0] == 'self.read_idx + 1', mod, e.node, witness=e.args[0], key=f'advance|{e.args[0][:40]}')
             if e.kind == 'call' and e.term == 'open':
                 m += 1
                 rr.ob('the file opened for reading is logfiles[read_idx], read-only', e.args[0] == 'self.logfiles[self.read_idx].path' and e.args[1].strip('\'"') == 'rb', mod, e.node, witness=str(e.args), key='open-current')
@@ -395,8 +406,11 @@ def r6(rr, repo):
         else:
             ok = not any(isinstance(x, ast.BinOp) for x in ast.walk(W))
             rr.ob('bin: the bytes are written as given (nothing appended)', ok, mod, wr[0].node, witness=wtxt[:100], key='frame|bin')
-        # accounting: S = length of exactly W
-        S = {f'len({wtxt})', f'{wtxt}.nbytes'}
+        # accounting: S = number of BYTES of exactly W. len() counts bytes only for bytes / bytearray; for any other buffer (a memoryview over an
+        # array of wider items) len() is the item count and .nbytes the byte count
+        is_bytes = [v for k, v in p.pc if k.startswith('truthy(isinstance(data, (bytes, bytearray)') or k.startswith('truthy(isinstance(data, bytes')]
+        byteslike = mode != 'bin' or (bool(is_bytes) and is_bytes[-1] is True)
+        S = {f'len({wtxt})', f'{wtxt}.nbytes'} if byteslike else {f'{wtxt}.nbytes'}
         tot = [e for e in stores if e.term == 'self.logfiles_size']
         last = [e for e in stores if e.term == 'self.logfiles[-1]']
         okt = bool(tot) and any(tot[-1].args[0] == f'self.logfiles_size + {s}' for s in S)
